@@ -29,11 +29,22 @@ fn real_main() -> i32 {
         return usage();
     }
     install_quiet_panic_hook();
+    if !args[0].starts_with("miri-") {
+        install_crash_handler();
+    }
     let env = Env::from_env_and_args(&args[1..]);
     match args[0].as_str() {
         "c10" => c10::main(&env),
         "c11" => c11::main(&env),
-        "c12" => c12::main(&env),
+        "c12" => match arg_value(&args, "--dump-case") {
+            Some(r) => {
+                let i = args.iter().position(|a| a == "--dump-case").unwrap();
+                let case: usize = args.get(i + 2).and_then(|x| x.parse().ok()).unwrap_or(0);
+                let sig: u64 = arg_value(&args, "--signal").and_then(|x| x.parse().ok()).unwrap_or(0);
+                c12::dump_case(&env, r.parse().unwrap_or(0), case, sig)
+            }
+            None => c12::main(&env),
+        },
         "c14" => c14::main(&env),
         "c14-child" => c14::child_main(&args[1..]),
         "miri-c12" => c12::miri_main(&args[1..]),
